@@ -5,4 +5,4 @@ Extraction "/verif/ocaml/sched/gen/sched_model.ml"
   from_user_priority empty_queue queue_add queue_remove queue_size iter_priority_sizes take_tasks
   rv_get rv_remove_multiple capable capable_res create_task_batches gap milp_of feasible objective objective_scale
   placed_total mapping_ok free_after ready_tasks inversions inversion classify open_cut k1_violated k2_violated
-  has_x count_vars blocker_open count_of placement_kind k3_mapping alt_dispatches k4_event k4_violated k5_event vplace_errors vfree_after vdecision_ok.
+  has_x count_vars blocker_open count_of placement_kind k3_mapping alt_dispatches k4_event k4_violated k5_event vplace_errors vfree_after vdecision_ok rv_remove_cls task_max_count_cls inst_on.
